@@ -2,7 +2,7 @@ SPECIFICATION Spec
 CONSTANTS
  MaxDepth = 2
  MaxItems = 2
- MaxLen = 13
+ MaxLen = 11
  MaxVar = 2
  MaxStr = 2
  Linear = FALSE
